@@ -300,6 +300,36 @@ def run(check, repo: Repo) -> None:
     check.decide(str_else_raises, "C19-R4", "validate_device: unknown device strings raise", "", mod.line(vd),
                  fail_detail="the string dispatch of validate_device has no raising else-arm")
 
+    # ---- R4b the key that is validated is the key that is stored --------------------------------
+    # check_key_val tests `key == 'device'` and returns (key, value).  If the returned key can differ from the tested one (a rename through the deprecation table after
+    # the test) an old name that maps to 'device' is stored as 'device' without ever passing validate_device.  Coupled with the table: harmless while nothing maps to it.
+    _, ckv = repo.func(f"{CFGMOD}:check_key_val")
+    dev_tests = [n for n in ast.walk(ckv) if isinstance(n, ast.If) and any(isinstance(x, ast.Compare) and unparse(x) in ("key == 'device'", "'device' == key") for x in ast.walk(n.test))]
+    rets = [r for r in ast.walk(ckv) if isinstance(r, ast.Return) and isinstance(r.value, ast.Tuple) and len(r.value.elts) == 2]
+    if dev_tests and rets:
+        kcfg = CFG(ckv)
+        tnode = min(kcfg.nodes_of(dev_tests[0]) or [0])
+        renamed_after = [r for r in rets if not (isinstance(r.value.elts[0], ast.Name) and r.value.elts[0].id == "key")]
+        rebinds_after = [n for n in kcfg.nodes if n.kind == "stmt" and isinstance(n.stmt, ast.Assign) and any(dotted(t) == "key" for t in n.stmt.targets) and n.id in kcfg.reachable_from(tnode)]
+        try:
+            _dm, dep_tab = repo.module_assign(CFGMOD, "deprecations")
+            dep_vals = [v.value for v in dep_tab.values if isinstance(v, ast.Constant)] if isinstance(dep_tab, ast.Dict) else None
+        except AnalysisError:
+            dep_vals = None
+        key_ = "check_key_val: the key tested against 'device' is the key that is returned (or no deprecated name maps to 'device')"
+        if not renamed_after and not rebinds_after:
+            check.holds("C19-R4", key_, "returns the tested key", mod.line(ckv))
+        elif dep_vals is None:
+            raise AnalysisError("check_key_val renames the key after the device test and the deprecation table is not a literal — not decided")
+        elif any(str(v).replace("-", "_") == "device" for v in dep_vals if v):
+            check.violated("C19-R4", key_, f"the key is renamed after the `key == 'device'` test (`{unparse((renamed_after or [rets[0]])[0].value.elts[0])[:50]}`) and the deprecation table maps "
+                           f"an old name to 'device': a request through the old name is stored as 'device' without validate_device — an unavailable device is accepted",
+                           mod.line((renamed_after or rets)[0]), definite=True)
+        else:
+            check.holds("C19-R4", key_, "renamed after the test, but no deprecated name maps to 'device'", mod.line(ckv))
+    else:
+        raise AnalysisError("check_key_val: device test / (key, value) return not found")
+
     # ---- R5 refresh / defaults --------------------------------------------------------------
     _, rf = repo.func(f"{CFGMOD}:refresh")
     rcfg = CFG(rf)
